@@ -20,13 +20,16 @@ ANY = 0xFFFFFFFF
 
 def _client(args):
     """one client process: its own identity, payload and options; returns a list of problems"""
-    sock, idx, rounds, shared_cred, seed = args
-    import random
+    sock, idx, rounds, shared_cred, seed = args[:5]
+    t_min = args[5] if len(args) > 5 else 0
+    import random, itertools
     rng = random.Random(seed)
     uid, gid = 1000 + idx, 2000 + idx
     problems = []
     ok_shared = 0
-    for r in range(rounds):
+    for r in itertools.count():
+        if (r >= rounds and time.time() >= t_min) or len(problems) > 5:
+            break
         payload = b"client-%d-round-%d-" % (idx, r) + bytes(rng.getrandbits(8) for _ in range(rng.randrange(0, 200)))
         c, m, z = rng.choice([0, 2, 3, 4, 5]), rng.choice([5, 6]), rng.choice([0, 2, 3])
         ttl = rng.choice([0, 10, 100])
@@ -79,7 +82,7 @@ def _hostile(args):
             c.settimeout(1.0)
             c.connect(sock)
             c.sendall(rng.choice(shapes))
-            if rng.random() < 0.5:
+            if rng.random() < 0.2:
                 try:
                     c.recv(64)
                 except OSError:
@@ -162,11 +165,12 @@ def run_load(ctx, exe, label, nthreads, nclients, rounds, sighup):
     pool = multiprocessing.Pool(nclients)
     problems = []
     try:
-        res = pool.map_async(_client, [(d.sock, i, rounds, shared["data"], ctx.seed * 1000 + i) for i in range(nclients)])
         t0 = time.time()
+        res = pool.map_async(_client, [(d.sock, i, rounds, shared["data"], ctx.seed * 1000 + i, t0 + (8.0 if ctx.thorough else 3.0))
+                                       for i in range(nclients)])
         # misbehaving clients at the same time (their descriptors are closed on the daemon's error path while others connect)
-        hpool = multiprocessing.Pool(3)
-        hres = hpool.map_async(_hostile, [(d.sock, t0 + 2.0 + rounds, ctx.seed * 31 + k) for k in range(3)])
+        hpool = multiprocessing.Pool(5)
+        hres = hpool.map_async(_hostile, [(d.sock, t0 + (8.0 if ctx.thorough else 3.0), ctx.seed * 31 + k) for k in range(5)])
         while not res.ready():
             if sighup:
                 d.write_nss({"groups": [(700, ["u%d" % i for i in range(0, 40, 2 + int(time.time() * 10) % 3)])], "users": db["users"]})
